@@ -13,6 +13,9 @@ pub trait SideFunctionality {
     fn new() -> Self;
     /// Insert an order
     fn insert_order(&mut self, key: OrderKey, idx: OrderId, vol: Vol);
+    /// Get the time component of the key for an order joining
+    /// the back of the queue at a price level
+    fn next_queue_time(&self, key_price: Price, t: Nanos) -> Nanos;
     /// Remove an order
     fn remove_order(&mut self, key: OrderKey, vol: Vol);
     /// Remove volume from a price level
@@ -63,6 +66,29 @@ impl OrderBookSide {
             }
         };
         self.vol += vol;
+    }
+
+    /// Get the time component of the key for an order joining
+    /// the back of the queue at a price level
+    ///
+    /// Keys must be unique and increase in queueing order, so if
+    /// the level already holds an order queued at (or after) `t`
+    /// the time is moved just past the last order in the queue.
+    ///
+    /// # Arguments
+    ///
+    /// - `key_price` - Price component of the order key
+    /// - `t` - Current time
+    ///
+    fn next_queue_time(&self, key_price: Price, t: Nanos) -> Nanos {
+        match self
+            .orders
+            .range((key_price, Nanos::MIN)..=(key_price, Nanos::MAX))
+            .next_back()
+        {
+            Some(((_, last), _)) => t.max(last.saturating_add(1)),
+            None => t,
+        }
     }
 
     /// Remove an order and update volume tracking
@@ -190,6 +216,11 @@ impl SideFunctionality for BidSide {
         self.0.remove_vol(price, vol)
     }
 
+    /// Get the key time for an order joining the back of a level
+    fn next_queue_time(&self, key_price: Price, t: Nanos) -> Nanos {
+        self.0.next_queue_time(key_price, t)
+    }
+
     /// Get best bid price
     fn best_price(&self) -> Price {
         Price::MAX - self.0.best_price()
@@ -258,6 +289,11 @@ impl SideFunctionality for AskSide {
     ///
     fn remove_vol(&mut self, price: Price, vol: Vol) {
         self.0.remove_vol(price, vol)
+    }
+
+    /// Get the key time for an order joining the back of a level
+    fn next_queue_time(&self, key_price: Price, t: Nanos) -> Nanos {
+        self.0.next_queue_time(key_price, t)
     }
 
     /// Get best ask price
